@@ -187,3 +187,36 @@ def e2oTop (tb : MsgTables) (top : Top) (evs : List MEvent) : Option Val :=
            | _ => none)
         | .stream => none
     | _ => none
+
+/-! ## `events_to_objs`: one object per message of a stream -/
+
+/-- `separate_events`: a new group starts at every marshal event at the root path (unless nothing was collected yet) -/
+def separateEvents : List Event → List Event → List (List Event)
+  | [], cur => if cur.isEmpty then [] else [cur]
+  | e :: rest, cur =>
+    let isRoot := match e with
+      | .marshal m => m.path == rootPath
+      | .warning _ => false
+    if isRoot && !cur.isEmpty then cur :: separateEvents rest [e] else separateEvents rest (cur ++ [e])
+
+def marshalsOf (es : List Event) : List MEvent :=
+  es.filterMap fun e => match e with
+    | .marshal m => some m
+    | .warning _ => none
+
+/-- `events_to_objs`: commands and responses alternate, each response rebuilt with the code of the command before it;
+result = (objects yielded so far, did the generator raise) -/
+def e2oStream (tb : MsgTables) : Option Int → List (List Event) → List Val × Bool
+  | _, [] => ([], false)
+  | none, m :: rest =>
+    match e2oTop tb .command (marshalsOf m) with
+    | some (.obj n e fs) =>
+      -- `command_code = command.commandCode` before the command is yielded
+      (match lookupVal fs "commandCode" with
+       | some (.int _ cc) => let r := e2oStream tb (some cc) rest; (.obj n e fs :: r.1, r.2)
+       | _ => ([], true))
+    | _ => ([], true)                                  -- `events_to_obj` raised, or `None.commandCode`
+  | some cc, m :: rest =>
+    match e2oTop tb (.response (some cc) false) (marshalsOf m) with
+    | some rsp => let r := e2oStream tb none rest; (rsp :: r.1, r.2)
+    | none => ([], true)
